@@ -329,6 +329,15 @@ func visitInstr(fr *frame, instr ssa.Instruction) continuation {
 			fr.i.ctx.stubs["go statement (skipped)"]++
 			break
 		}
+		if fr.i.eng.syncGo(fr.fn.String()) {
+			// one schedule: the goroutine runs to completion at the spawn point
+			// (sound only for goroutines that never block; their channels and
+			// writers are modelled by intrinsics that do not block)
+			fr.i.ctx.stubs["go statement in "+fr.fn.String()+" (run to completion at the spawn point)"]++
+			fn, args := prepareCall(fr, &instr.Call)
+			call(fr.i, fr, instr.Pos(), fn, args)
+			break
+		}
 		panic(abortPath{"unsupported", "go statement in " + fr.fn.String()})
 
 	case *ssa.MakeChan:
